@@ -333,7 +333,7 @@ func c02Work(c *engine.Ctx) {
 		tmp := make([]byte, 0, 1024)
 		for _, seed := range pl.seeds {
 			seen := map[uint64]struct{}{}
-			c.EditBall([]byte(seed), pl.alpha, func(in []byte) {
+			one := func(in []byte) {
 				h := engine.Hash64(in)
 				if _, dup := seen[h]; dup {
 					return
@@ -347,7 +347,9 @@ func c02Work(c *engine.Ctx) {
 					c.Count("exec", 1)
 					c.Count("edit-ball-exec", 1)
 				}
-			})
+			}
+			c.EditBall([]byte(seed), pl.alpha, one)
+			c.ByteSweep([]byte(seed), true, one)
 		}
 	}
 }
